@@ -44,8 +44,37 @@ fn exposed_before_integrity(msg: &Message) -> Vec<(u16, Vec<u8>)> {
 }
 
 fn check_message(bytes: &[u8], st: &mut Stats) -> Result<bool, Fail> {
-    let RefParse::Accept(r) = refstun::parse(bytes) else {
-        return Ok(false);
+    let r = match refstun::parse(bytes) {
+        RefParse::Accept(r) => r,
+        RefParse::Reject(_) => {
+            // The statement speaks of every message the LIBRARY accepts. A buffer the reference
+            // refuses but the library accepts (C02's business as such) is still judged by the
+            // exposure rule, over the attributes its body is tiled by.
+            if bytes.len() < 20 {
+                return Ok(false);
+            }
+            let Ok(Ok(msg)) = guard(|| Message::from_bytes(bytes)) else { return Ok(false) };
+            let declared = u16::from_be_bytes([bytes[2], bytes[3]]) as usize;
+            if declared + 20 != bytes.len() {
+                return Ok(false);
+            }
+            let (attrs, tiled) = refstun::walk(bytes, bytes.len());
+            if !tiled {
+                return Ok(false);
+            }
+            let want: Vec<(u16, Vec<u8>)> = refstun::exposure(&attrs).iter().map(|&i| (attrs[i].ty, attrs[i].value(bytes).to_vec())).collect();
+            let got: Vec<(u16, Vec<u8>)> = msg.iter_attributes().take(bytes.len() / 4 + 2).map(|a| (a.get_type().value(), a.value.to_vec())).collect();
+            st.class("accepted by the library although the reference refuses it: exposure rule applied to its attributes");
+            ensure!(
+                got == want,
+                "c10-attrs",
+                "an accepted message (which the reference decoder refuses) exposes types {:04x?}; its attributes are {:04x?} and the exposure rule allows only {:04x?}",
+                got.iter().map(|a| a.0).collect::<Vec<_>>(),
+                attrs.iter().map(|a| a.ty).collect::<Vec<_>>(),
+                want.iter().map(|a| a.0).collect::<Vec<_>>()
+            );
+            return Ok(false);
+        }
     };
     let lib = guard(|| Message::from_bytes(bytes)).map_err(|p| Fail::new("c10-panic", p))?;
     let Ok(msg) = lib else {
